@@ -310,10 +310,19 @@ func coqSide(s string) string {
 	return "Res"
 }
 
+// preCtr renders a 12-byte nonce (hex) as "<prefix> <counter>".
+func preCtr(nonceHex string) string {
+	b, _ := hex.DecodeString(nonceHex)
+	if len(b) < 12 {
+		return "0 0"
+	}
+	return fmt.Sprintf("%d %d", binary.BigEndian.Uint32(b[:4]), binary.BigEndian.Uint64(b[4:12]))
+}
+
 func coqOutcome(o obs) string {
 	switch o.outcome {
 	case "enc":
-		return "(OEnc \"" + o.nonceHex + "\")"
+		return "(OEnc " + preCtr(o.nonceHex) + ")"
 	case "accept":
 		return fmt.Sprintf("(OAccept %d)", o.accPid)
 	case "short":
@@ -341,9 +350,9 @@ func coqCase(s *Schedule, rr runResult) string {
 		} else {
 			body := "XGarbage"
 			if o.sealedN != "" {
-				body = fmt.Sprintf("(XSealed \"%s\" %d %d)", o.sealedN, o.sealedP, o.sealedL)
+				body = fmt.Sprintf("(XSealed %s %d %d)", preCtr(o.sealedN), o.sealedP, o.sealedL)
 			}
-			evs = append(evs, fmt.Sprintf("XDeliver %s \"%s\" %s %d", coqSide(o.side), o.hdrHex, body, o.flen))
+			evs = append(evs, fmt.Sprintf("XDeliver %s %d %s %s %d", coqSide(o.side), len(o.hdrHex)/2, preCtr(o.hdrHex), body, o.flen))
 		}
 		outs = append(outs, fmt.Sprintf("(%s, %d, %d)", coqOutcome(o), o.send, o.recv))
 	}
